@@ -411,10 +411,11 @@ PROPS["C01"] = {
              "all restart-flag subsets, descriptor, user data) x Flush placement; each stream is decoded by the Go reader AND by "
              "the Lean specification decoder and both must equal the records set; non-trivial = >= 2 writes with a top-level "
              "field left unmodified and a dictionary reference; distinct by hash of the stream. Every history is also replayed call by call on the Lean record API model (op `ap`, harness/internal/recgen/serialize.go): same top-level mask and record dump at every Write, same frame contents byte for byte; histories with a call the model does not describe are dropped whole and counted (input_distribution api-histories-unsupported, api-unsupported-<reason>)"),
-    "trusted_base": CODEC_TB + ["Stef/Api.lean: hand transcription of stefc/templates/go/{struct,oneof,array,multimap}.go.tmpl and pkg/modifiedfields.go (record state with hidden parts and marks, public calls, Write), tied by op `ap`"],
+    "trusted_base": CODEC_TB + ["Stef/Api.lean: hand transcription of stefc/templates/go/{struct,oneof,array,multimap}.go.tmpl and pkg/modifiedfields.go (record state with hidden parts and marks, public calls, Write), tied by op `ap`; two branches are NOT in the templates and dead on every tied history (checked by replacing them with state-destroying ones: 0 disagreements): `unshare` checks that the copy of a shared dictionary struct compares equal to it (else: marked in full, parent told), `copy<Struct>` into a shared (frozen) dictionary struct changes nothing and tells the parent (Go: panic)"],
     "assumptions": ["memory aliasing (values of earlier records staying unchanged) is checked by the harness only",
-                    "record API theorems: CopyFrom is proved for schemas without dictionary structs only; in-place modification of a "
-                    "dictionary struct through a getter is outside the model"],
+                    "record API theorems: in-place modification of a dictionary struct through a getter is outside the model; "
+                    "multimap keys / values of dictionary-struct type are modelled but not tied (the serializer drops such histories; "
+                    "Go's copy<Multimap> panics on a frozen destination value: DESIGN 0.2b, Not covered (3))"],
     "level_text": ("Proved for all inputs (Props/C01Enc.lean, over the schema-generic encoder model Stef/SpecEnc.lean and the "
                    "specification decoder Stef/Spec.lean): encode_decode_node(_framed) - for every schema, node kind (primitive, "
                    "struct with mask and optional fields, dictionary struct, oneof, array, multimap in its three forms, recursion), "
@@ -425,15 +426,16 @@ PROPS["C01"] = {
                    "effective values, no error, no dictionary violation). Props/C01.lean keeps roundtrip_struct_of_primitives over "
                    "the register-level codecs and setter_marks_changes. Tie: `se reencode` regenerates every frame of every harness "
                    "stream byte-exactly with the model encoder from the marks the model decoder recorded, and `sd decode` decodes "
-                   "it. Record API (Props/C01Api.lean over the model Stef/Api.lean, DESIGN 0.2b): call_preserves_sound (every public call "
-                   "except CopyFrom, any path / arguments / schema / state, keeps the marks sound against the reader's value), "
-                   "copyFrom_preserves_sound_partial (CopyFrom, schemas without dictionary structs), write_sound (sound marks => the "
+                   "it. Record API (Props/C01Api.lean over the model Stef/Api.lean, DESIGN 0.2b): call_preserves_sound (every public call, "
+                   "CopyFrom included, any path / arguments / schema / state, keeps the marks sound against the reader's value), "
+                   "copyFrom_preserves_sound / copy_preserves (CopyFrom for every schema, dictionary structs included: shared frozen "
+                   "children, owned children, unshare, stale hidden values), write_sound (sound marks => the "
                    "proved encoder's effective value shows the record; record left unmarked and in sync; dictionaries in step), "
-                   "write_keeps_value, tree_ok, new_record_in_sync, api_marks_sound_partial and api_stream_roundtrip_partial (every "
-                   "history over any frames / restart flags: decodeStream returns records that show exactly the records written; "
-                   "hypothesis Covered = no CopyFrom, or no dictionary struct in the schema). The model is tied to the generated code "
-                   "call by call and byte for byte (op `ap`). NOT a theorem: CopyFrom on schemas with dictionary structs (tie only; 14 "
-                   "mark defects were found and repaired in /repo before, none open); encoder totality; zstd."),
+                   "write_keeps_value, tree_ok, new_record_in_sync, api_marks_sound and api_stream_roundtrip (every "
+                   "history over any frames / restart flags, no hypothesis on calls or schema: decodeStream returns records that show "
+                   "exactly the records written). The model is tied to the generated code "
+                   "call by call and byte for byte (op `ap`). NOT a theorem: encoder totality; zstd; in-place modification of "
+                   "dictionary structs (outside the model)."),
 }
 
 PROPS["C02"] = {
@@ -587,7 +589,7 @@ PROPS["C10"] = {
                    "serializer supports, each history is replayed call by call on the schema-generic Lean model of the generated "
                    "API and the frames it encodes must equal the real frames byte for byte (op `ap`), and `se reencode` regenerates "
                    "every frame with the proved encoder - the generated package is checked to BE the model instantiated at its "
-                   "schema on every history, and the model's round trip is a theorem (api_stream_roundtrip_partial)."),
+                   "schema on every history, and the model's round trip is a theorem (api_stream_roundtrip: every schema, every history of the modelled calls, CopyFrom included)."),
 }
 
 PROPS["C04"] = {
